@@ -566,14 +566,4 @@ def shrink(c):
         yield dict(c, seed=c['seed'] % 3)
 
 
-def _zero_vector_on_axis(c):
-    M = _mat(c['spec'])
-    totals = M.sum(axis=1) if c['axis'] == 'observation' else M.sum(axis=0)
-    return bool((totals == 0).any())
-
-
-SIGNATURES = {
-    # with replacement + a vector without counts on the sampled axis -> ValueError from rng.multinomial(n, [])
-    'F21': lambda c, io, mo, fails: (c.get('kind') == 'replace' and c['n'] >= 0 and _zero_vector_on_axis(c)
-                                     and isinstance(io, dict) and io.get('result') == ['err', 5]),
-}
+SIGNATURES = {}
